@@ -65,6 +65,20 @@ impl BuildingNeeds {
                 Some(new_values.to_owned())
             }
         };
+        let current = match need.service {
+            Service::ACS => &self.ACS,
+            Service::CAL => &self.CAL,
+            Service::REF => &self.REF,
+            _ => &None,
+        };
+        if let Some(nd) = current {
+            if nd.len() != need.values.len() {
+                return Err(EpbdError::WrongInput(format!(
+                    "Demandas de edificio del servicio {} con distinto número de pasos de cálculo",
+                    need.service
+                )));
+            }
+        }
         match need.service {
             Service::ACS => self.ACS = update(&self.ACS, &need.values),
             Service::CAL => self.CAL = update(&self.CAL, &need.values),
